@@ -107,7 +107,33 @@ def reference_matrix(ctx, vh):
         elif accepted:
             if ('<cstring>%s</cstring>' % o not in r["ui"]) and ('<addaction name="%s"/>' % o not in r["ui"]):
                 ctx.violation("%s: the reference to `%s` is accepted but not in the form" % (pname, o), {"qml": doc, "impl_output": r["ui"]})
-    ctx.coverage["reference_matrix"] = len(meta)
+    # the same for references that are CHOSEN at run time: every branch / return of the binding has to be an object the property takes (null is one); a null between two
+    # returns does not make an unrelated class acceptable
+    shapes = [("ternary", "c1.checked ? %s : %s", 2), ("ternary-null", "c1.checked ? %s : c2.checked ? null : %s", 2), ("returns", "{ if (c1.checked) return %s; return %s; }", 2),
+              ("returns-null-between", "{ if (c1.checked) return %s; if (c2.checked) return null; return %s; }", 2),
+              ("returns-null-first", "{ if (c1.checked) return null; if (c2.checked) return %s; return %s; }", 2),
+              ("returns-null-last", "{ if (c1.checked) return %s; if (c2.checked) return %s; return null; }", 2),
+              ("switch", "{ switch (c1.text) { case \"a\": return %s; case \"b\": return null; default: return %s; } }", 2)]
+    docs2, meta2 = [], []
+    for sname, tmpl, k in shapes:
+        for o1, k1 in objs.items():
+            for o2, k2 in objs.items():
+                doc = ("import qmluic.QtWidgets\nQWidget {\n  QCheckBox { id: c1 }\n  QCheckBox { id: c2 }\n  QLineEdit { id: edit }\n  QAction { id: act }\n  QMenu { id: menu }\n"
+                       "  QVBoxLayout { id: lay; QLabel { id: inner } QSpacerItem { id: sp } }\n  QLabel { id: lbl; buddy: " + tmpl % (o1, o2) + " }\n}\n")
+                docs2.append(doc)
+                meta2.append((sname, o1, o2, k1 == "widget" and k2 == "widget"))
+    res2 = qml.run_docs(vh, docs2, mode="generate")
+    for (sname, o1, o2, compatible), doc, r in zip(meta2, docs2, res2):
+        ctx.count(("reference-shapes", sname, o1, o2), True)
+        if not isinstance(r, dict) or "diags" not in r:
+            ctx.violation("pipeline gives no result on a chosen object reference", {"qml": doc, "impl_output": str(r)[:500]})
+            continue
+        accepted = r.get("ui") is not None and not any(d["kind"] == "error" for d in r["diags"])
+        if accepted and not compatible:
+            ctx.violation("buddy (%s): a binding that may yield `%s` or `%s` is accepted -- one of them is not an object of a class the property takes" % (sname, o1, o2),
+                          {"qml": doc, "impl_output": r.get("header"), "theorem_or_correspondence": "S: references denote declared objects of a compatible class"})
+        ctx.dist("chosen-reference-%s-%s" % ("compatible" if compatible else "incompatible", "accepted" if accepted else "refused"))   # two unrelated widget classes have no common type: refused, which is safe
+    ctx.coverage["reference_matrix"] = len(meta) + len(meta2)
 
 
 def run(ctx):
